@@ -4,8 +4,22 @@ CLAIMED['C17'] = dict(
     text=_T + 'compact decode/encode and CheckProofOfWork are decided by z3 for ALL 2^32 compact values, ALL 256-bit integers and ALL 32-byte hashes '
          'against the Core SetCompact/GetCompact definition, per chain; nothing inside those ranges is outside the claim.',
     note='trusts z3, the struct stub (exact model of unpack "<IIIIIIII"), and the reference definition in refs/ref_codec.py; CPython int semantics as modelled by SymInt.')
+CLAIMED['C01'] = dict(
+    text=_T + 'per transaction/header/block shape (counts and lengths concrete, every field value and byte symbolic over its full wire range) '
+         'the serialised bytes equal an independent reference encoder, the round trip restores every field, every tried strict prefix raises '
+         'exactly the truncation error and every 1/2/9-byte symbolic extension raises the extra-data error carrying object and padding; '
+         'CompactSize codec decided for all i < 2^64.',
+    note='shapes (n_in<=3, n_out<=3, lengths at CompactSize boundaries) are the bound; struct/BytesIO stubs are exact models; trusts z3 and refs/ref_wire.py.')
+CLAIMED['C02'] = dict(
+    text=_T + 'txid / wtxid / block hash are compared with double-SHA256 (uninterpreted function with congruence) of the reference encodings, '
+         'for two independent symbolic witness assignments per transaction; mutable/immutable twins compared on serialisation, identifiers, ==, hash().',
+    note='SHA-256 is an uninterpreted function: equality of digests is decided through equality of pre-images (complete modulo real collisions); bounds as C01.')
+CLAIMED['C15'] = dict(
+    text=_T + 'for every leaf count in the bound with 32 symbolic bytes per leaf the returned root is the reference tree term over the same '
+         'uninterpreted hash; witness root, constructor root check (symbolic declared root) and weights compared with reference definitions.',
+    note='SHA-256 uninterpreted (congruence only): equality of nested hash terms decides tree shape/leaf order for all leaf values; counts 1..70.')
 _UC = 'check not built yet in this round (engine exists; harness pending) - will be claimed or declared not applicable with its real reason'
-for _i in ['C01','C02','C03','C04','C05','C06','C07','C08','C09','C10','C11','C12','C14','C15','C16','C18','C19','C20']:
+for _i in ['C03','C04','C05','C06','C07','C08','C09','C10','C11','C12','C14','C16','C18','C19','C20']:
     NA[_i] = _UC
 NA['C13'] = ('key derivation, signing, verification and point validity are computed by OpenSSL through ctypes: there is no Python or IR to execute '
              'symbolically, and the reference (secp256k1 group law, 256-bit modular inversion) is non-linear 256-bit arithmetic out of reach of z3/cvc5')
